@@ -6,84 +6,35 @@ import (
 
 	"github.com/blevesearch/bleve/v2"
 	"github.com/blevesearch/bleve/v2/index/scorch"
-	"github.com/blevesearch/bleve/v2/index/upsidedown"
-	"github.com/blevesearch/bleve/v2/index/upsidedown/store/gtreap"
 	"github.com/blevesearch/bleve/v2/search"
-	"github.com/blevesearch/bleve/v2/search/query"
 	index "github.com/blevesearch/bleve_index_api"
 )
 
 func main() {
-	for _, eng := range []string{"scorch", "upsidedown"} {
-		m := bleve.NewIndexMapping()
-		dm := bleve.NewDocumentMapping()
-		fm := bleve.NewTextFieldMapping()
-		fm.Analyzer = "keyword"
-		dm.AddFieldMappingsAt("f", fm)
-		m.DefaultMapping = dm
-		var idx bleve.Index
-		if eng == "scorch" {
-			idx, _ = bleve.NewUsing("", m, scorch.Name, scorch.Name, nil)
-		} else {
-			idx, _ = bleve.NewUsing("", m, upsidedown.Name, gtreap.Name, nil)
-		}
-		// docs d0..d5: must term "m" in d0,d3 ; should "s" in d3,d5
-		docs := [][]string{{"m"}, {"x"}, {"x"}, {"m", "s"}, {"x"}, {"s"}}
-		b := idx.NewBatch()
-		for i, d := range docs {
-			vals := []interface{}{}
-			for _, v := range d {
-				vals = append(vals, v)
+	m := bleve.NewIndexMapping()
+	idx, _ := bleve.NewUsing("", m, scorch.Name, scorch.Name, nil)
+	adv, _ := idx.Advanced()
+	try := func(label string) {
+		defer func() {
+			if e := recover(); e != nil {
+				fmt.Println(label, "PANIC:", e)
 			}
-			b.Index(fmt.Sprintf("d%d", i), map[string]interface{}{"f": vals})
+		}()
+		rd, _ := adv.Reader()
+		defer rd.Close()
+		q := bleve.NewTermQuery("x")
+		q.SetField("f")
+		s, err := q.Searcher(context.Background(), rd, m, search.SearcherOptions{})
+		if err != nil {
+			panic(err)
 		}
-		idx.Batch(b)
-		adv, _ := idx.Advanced()
-		for _, score := range []string{"", "none"} {
-			for _, prog := range [][]int{{-1, -1, -1}, {1, -1}, {2, -1}, {3, -1}} {
-				rd, _ := adv.Reader()
-				tq := func(t string) query.Query { q := bleve.NewTermQuery(t); q.SetField("f"); return q }
-				bq := bleve.NewBooleanQuery()
-				bq.AddMust(tq("m"))
-				bq.AddShould(tq("s"))
-				bq.AddShould(tq("zz"))
-				bq.SetMinShould(1)
-				s, err := bq.Searcher(context.Background(), rd, m, search.SearcherOptions{Score: score})
-				if err != nil {
-					panic(err)
-				}
-				ctx := &search.SearchContext{DocumentMatchPool: search.NewDocumentMatchPool(s.DocumentMatchPoolSize()+10, 0)}
-				out := []string{}
-				for _, c := range prog {
-					var d *search.DocumentMatch
-					if c < 0 {
-						d, err = s.Next(ctx)
-						out = append(out, "N")
-					} else {
-						var id index.IndexInternalID
-						if eng == "scorch" {
-							id = index.NewIndexInternalID(nil, uint64(c))
-						} else {
-							id = index.IndexInternalID(fmt.Sprintf("d%d", c))
-						}
-						d, err = s.Advance(ctx, id)
-						out = append(out, fmt.Sprintf("A%d", c))
-					}
-					if err != nil {
-						panic(err)
-					}
-					if d == nil {
-						out = append(out, "->nil")
-					} else {
-						ext, _ := rd.ExternalID(d.IndexInternalID)
-						out = append(out, "->"+ext)
-					}
-				}
-				fmt.Printf("%s score=%q %T %v\n", eng, score, s, out)
-				s.Close()
-				rd.Close()
-			}
-		}
-		idx.Close()
+		ctx := &search.SearchContext{DocumentMatchPool: search.NewDocumentMatchPool(s.DocumentMatchPoolSize()+10, 0)}
+		d, err := s.Advance(ctx, index.NewIndexInternalID(nil, 0))
+		fmt.Println(label, "Advance(0) ->", d, err)
 	}
+	try("empty index")
+	idx.Index("a", map[string]interface{}{"f": "x"})
+	idx.Delete("a")
+	try("index+delete")
+	idx.Close()
 }
